@@ -90,14 +90,26 @@ static void probe (OrcProgram * p, long idx)
       OrcExecutor ex;
       char msg[200];
       int k, bad = 0;
+      int cfgi;
+      for (cfgi = 0; cfgi < 2 && !bad; cfgi++) {
       memset (&c, 0, sizeof (c));
       c.n = 37; c.m = p->is_2d ? 2 : 1; c.pchoice = 1;
+      if (cfgi == 1) {
+        /* fewer elements than it takes to align a destination that starts one element past a vector boundary: the
+         * path on which the loop counters are set up differently; the executor's scratch fields hold what a previous,
+         * longer run would have left (vr_exec_setup fills them with a pattern) */
+        int q;
+        c.n = 3;
+        for (q = 0; q < VR_NARR; q++) if (p->vars[q].size && (p->vars[q].vartype == ORC_VAR_TYPE_DEST || p->vars[q].vartype == ORC_VAR_TYPE_SRC) && p->vars[q].alignment <= p->vars[q].size) c.off[q] = p->vars[q].size;
+      }
       for (k = 0; k < 3; k++) {
         vr_arena_alloc (&A[k], p, &c);
         vr_arena_fill (&A[k], &c);
         vr_exec_setup (&ex, p, &A[k], &c);
+        /* what an earlier run left in the executor's scratch fields differs from run to run */
+        ex.counter1 = ex.counter2 = ex.counter3 = k == 0 ? 0 : k == 1 ? 0x5a5a5a5a : 0x00000007;
         V_CONFINED (orc_executor_run (&ex), sig);
-        if (sig) bad = 1;
+        if (sig) { if (!bad) inproc_fail (p, tnames[t], cfgi ? "run-crashed-short-n-misaligned" : "run-crashed"); bad = 1; }
       }
       if (!bad) {
         OrcExecutor e0 = ex;
@@ -105,6 +117,7 @@ static void probe (OrcProgram * p, long idx)
           inproc_fail (p, tnames[t], "repeated-runs-differ");
       }
       for (k = 0; k < 3; k++) vr_arena_free (&A[k]);
+      }
     }
   }
 }
